@@ -144,6 +144,8 @@ def _not_presence_tests(tests: t.List[t.Tuple[ast.expr, bool]], readers: t.Set[s
                     return None
         if isinstance(e, ast.Compare) and len(e.ops) == 1 and isinstance(e.left, ast.Call) and unparse(e.left.func) == "len" and e.left.args and unparse(e.left.args[0]) in readers:
             return None  # len(reader) > 0 style emptiness test
+        if pol and isinstance(e, ast.Call) and unparse(e.func) == "isinstance" and len(e.args) == 2 and unparse(e.args[1]) == "ASN1Tag" and any(unparse(e.args[0]) == f"{h}.tag" for h in headers):
+            return None  # the tag of a peeked header is an ASN1Tag by construction (class pattern `case ASN1Tag(...)`): no test of the value
         return ("" if pol else "not ") + unparse(e)
 
     for e, pol in tests:
